@@ -425,6 +425,7 @@ def json_equal(a, b):
     return a == b
 
 
+ODD_UNICODE_NAMES = ["CAFE\u0301", "\u212b", "\u2126", "q\u0307\u0323", "A\u030a", "\ufb01", "\u1e9b\u0323", "\u0041\u0300\u0301"]
 ATTR_LIKE_NAMES = ["keys", "items", "values", "get", "pop", "update", "clear", "copy", "append", "setdefault", "popitem",
                    "move_to_end", "highest_inner_signal", "name_for_signal", "is_inner_signal", "__doc__", "__class__", "__dict__",
                    "__len__", "fromkeys"]
@@ -439,6 +440,10 @@ def explore_json(run, n_random):
             # names that are also attributes of the registry object (an OrderedDict subclass)
             name = rng.choice(ATTR_LIKE_NAMES)
             run.count("signal name that is also an attribute of the registry object")
+        elif rng.random() < 0.15:
+            # legal text that is not in a Unicode normal form (decomposed / compatibility characters, marks out of order)
+            name = rng.choice(ODD_UNICODE_NAMES)
+            run.count("signal name that is not NFC / NFKC normalised")
         payload = gen_json(rng, 3)
         known_before = name in mevent.signals
         cj = {"what": "json", "name": name, "payload": repr(payload)[:200]}
@@ -459,6 +464,17 @@ def explore_json(run, n_random):
         if back.signal != mevent.signals[name] or back.signal != e.signal:
             run.violate("C26/number", "signal number %r, the registry says %r" % (back.signal, mevent.signals[name]), cj)
         run.case(cj, nontrivial=True)
+    # a str made of surrogate code units (legal in Python, not well-formed Unicode): the JSON text merges a high/low pair
+    sur = "\ud83d\ude00"
+    try:
+        back = Event.loads(Event.dumps(Event(signal=sur, payload=sur)))
+        if back.signal_name != sur or back.payload != sur:
+            run.violate("C26/name/surrogate-pair-code-units", "a str holding a high and a low surrogate as two code units (len 2) comes back as %r "
+                        "(len %d) as signal name and %r as payload: the JSON text joins the pair into one code point"
+                        % (back.signal_name, len(back.signal_name), back.payload), {"what": "json", "name": "surrogate pair"})
+    except Exception as ex:  # noqa
+        run.violate("C26/exception", "a str of surrogate code units: %s: %s" % (type(ex).__name__, ex), {"what": "json", "name": "surrogate pair"})
+    run.case({"what": "json", "name": "surrogate pair"}, nontrivial=True)
     # a name this process has never seen arrives over the wire
     fresh = "WIRE_%d_%d" % (run.seed, rng.randint(0, 10 ** 9))
     text = json.dumps({"signal_name": fresh, "payload": [1, {"a": None}]})
